@@ -48,54 +48,7 @@ func c03(r *core.Report) {
 
 	// ---- C03-VERIFY-INSIDE
 	r.Rule("C03-VERIFY-INSIDE", "the handshake readers succeed only on the success edge of signature verification", 5)
-	noErrReturnOnlyAfter := func(fn *ssa.Function, isVerifier func(*ssa.CallCommon) bool, what string) {
-		cut := core.CutWhere(core.ErrNilGuard(isVerifier))
-		ok := core.GuardEdges(fn, cut) > 0
-		reached := core.Reach(fn, nil, cut, nil)
-		for _, ret := range core.Returns(fn) {
-			if !reached[ret] {
-				continue
-			}
-			ei := len(ret.Results) - 1
-			for _, v := range core.ReturnValues(ret, ei) {
-				if core.IsNilConst(v) {
-					ok = false
-				}
-			}
-		}
-		r.Check(ok, "C03-VERIFY-INSIDE", core.FnName(fn), p.Pos(fn.Pos()), "returns a nil error only after "+what+" returned nil", core.FnName(fn)+" can succeed without "+what+" having succeeded: a handshake message with an invalid or missing signature is accepted")
-	}
-	isVAC := func(c *ssa.CallCommon) bool { return core.IsCallToFn(c, vac) }
-	isVerify := func(c *ssa.CallCommon) bool { return core.IsCallToFn(c, verify) }
-	noErrReturnOnlyAfter(rih, isVAC, "verifyAuthClaim")
-	noErrReturnOnlyAfter(rrh, isVAC, "verifyAuthClaim")
-	noErrReturnOnlyAfter(rid, isVerify, "verify")
-	noErrReturnOnlyAfter(vac, isVerify, "verify")
-	{
-		// verify: nil only on the true edge of Verifier.Verify
-		cut := core.CutWhere(core.BoolCallGuard(func(c *ssa.CallCommon) bool { return c.IsInvoke() && c.Method.Name() == "Verify" }, true))
-		ok := core.GuardEdges(verify, cut) > 0
-		reached := core.Reach(verify, nil, cut, nil)
-		for _, ret := range core.Returns(verify) {
-			if reached[ret] {
-				for _, v := range core.ReturnValues(ret, 0) {
-					if core.IsNilConst(v) {
-						ok = false
-					}
-				}
-			}
-		}
-		r.Check(ok, "C03-VERIFY-INSIDE", core.FnName(verify), p.Pos(verify.Pos()), "returns nil only when Verifier.Verify returned true", "verify can return nil although the signature did not verify")
-		// verified bytes = createPreSig(purpose, msg) of verify's own arguments
-		okArgs := false
-		for _, ci := range core.Calls(verify, func(ci ssa.CallInstruction) bool { return ci.Common().IsInvoke() && ci.Common().Method.Name() == "Verify" }) {
-			okArgs = core.DerivesFrom(ci.Common().Args[0], func(x ssa.Value) bool {
-				c, idx, ok := core.CallResult(x)
-				return ok && idx == 0 && core.IsCallToFn(c.Common(), cps) && c.Call.Args[0] == ssa.Value(verify.Params[1]) && c.Call.Args[1] == ssa.Value(verify.Params[2])
-			}) && ci.Common().Args[1] == ssa.Value(verify.Params[3])
-		}
-		r.Check(okArgs, "C03-VERIFY-INSIDE", core.FnName(verify)+" inputs", p.Pos(verify.Pos()), "the verifier checks sig over createPreSig(purpose, msg)", "verify does not check the given signature over the purpose-tagged pre-hash of the given message")
-	}
+	ruleVerifyInside(r, "C03-VERIFY-INSIDE")
 
 	// ---- C03-KEY-PROVENANCE
 	r.Rule("C03-KEY-PROVENANCE", "the recorded remote key is the verified one; InitDone is verified against it", 5)
@@ -344,4 +297,72 @@ func fieldValuesOfAllocated(v ssa.Value, field string) []ssa.Value {
 		}
 	}
 	return out
+}
+
+// ruleVerifyInside (shared by C03, C02 "authentic" and C04): the handshake readers return a nil error
+// only after signature verification returned nil, verify returns a provably non-nil error unless the
+// scheme's Verify returned true, and it verifies the given signature over createPreSig(purpose, msg).
+func ruleVerifyInside(r *core.Report, ruleID string) {
+	p := r.P
+	rih := needFn(r, "p/p2pke", "readInitHello")
+	rrh := needFn(r, "p/p2pke", "readRespHello")
+	rid := needFn(r, "p/p2pke", "readInitDone")
+	vac := needFn(r, "p/p2pke", "verifyAuthClaim")
+	verify := needFn(r, "p/p2pke", "verify")
+	cps := needFn(r, "p/p2pke", "createPreSig")
+	if rih == nil || rrh == nil || rid == nil || vac == nil || verify == nil || cps == nil {
+		return
+	}
+	nn := core.NewNonNil(p)
+	noErrReturnOnlyAfter := func(fn *ssa.Function, isVerifier func(*ssa.CallCommon) bool, what string) {
+		cut := core.CutWhere(core.ErrNilGuard(isVerifier))
+		ok := core.GuardEdges(fn, cut) > 0
+		reached := core.Reach(fn, nil, cut, nil)
+		for _, ret := range core.Returns(fn) {
+			if !reached[ret] {
+				continue
+			}
+			ei := len(ret.Results) - 1
+			for _, v := range core.ReturnValues(ret, ei) {
+				// not merely "not the nil constant": the error must be provably non-nil (errors.Wrapf
+				// of a nil error is nil)
+				if !nn.At(v, ret) {
+					ok = false
+				}
+			}
+		}
+		r.Check(ok, ruleID, core.FnName(fn), p.Pos(fn.Pos()), "returns a provably non-nil error on every path on which "+what+" did not return nil", core.FnName(fn)+" can succeed without "+what+" having succeeded: a handshake message with an invalid or missing signature is accepted")
+	}
+	isVAC := func(c *ssa.CallCommon) bool { return core.IsCallToFn(c, vac) }
+	isVerify := func(c *ssa.CallCommon) bool { return core.IsCallToFn(c, verify) }
+	noErrReturnOnlyAfter(rih, isVAC, "verifyAuthClaim")
+	noErrReturnOnlyAfter(rrh, isVAC, "verifyAuthClaim")
+	noErrReturnOnlyAfter(rid, isVerify, "verify")
+	noErrReturnOnlyAfter(vac, isVerify, "verify")
+	{
+		// verify: nil only on the true edge of Verifier.Verify
+		cut := core.CutWhere(core.BoolCallGuard(func(c *ssa.CallCommon) bool { return c.IsInvoke() && c.Method.Name() == "Verify" }, true))
+		ok := core.GuardEdges(verify, cut) > 0
+		reached := core.Reach(verify, nil, cut, nil)
+		for _, ret := range core.Returns(verify) {
+			if reached[ret] {
+				for _, v := range core.ReturnValues(ret, 0) {
+					if !nn.At(v, ret) {
+						ok = false
+					}
+				}
+			}
+		}
+		r.Check(ok, ruleID, core.FnName(verify), p.Pos(verify.Pos()), "returns a provably non-nil error unless Verifier.Verify returned true", "verify can return nil although the signature did not verify (an error value that is not provably non-nil is returned on the failing edge, e.g. errors.Wrapf of a nil error)")
+		// verified bytes = createPreSig(purpose, msg) of verify's own arguments
+		okArgs := false
+		for _, ci := range core.Calls(verify, func(ci ssa.CallInstruction) bool { return ci.Common().IsInvoke() && ci.Common().Method.Name() == "Verify" }) {
+			okArgs = core.DerivesFrom(ci.Common().Args[0], func(x ssa.Value) bool {
+				c, idx, ok := core.CallResult(x)
+				return ok && idx == 0 && core.IsCallToFn(c.Common(), cps) && c.Call.Args[0] == ssa.Value(verify.Params[1]) && c.Call.Args[1] == ssa.Value(verify.Params[2])
+			}) && ci.Common().Args[1] == ssa.Value(verify.Params[3])
+		}
+		r.Check(okArgs, ruleID, core.FnName(verify)+" inputs", p.Pos(verify.Pos()), "the verifier checks sig over createPreSig(purpose, msg)", "verify does not check the given signature over the purpose-tagged pre-hash of the given message")
+	}
+
 }
